@@ -4,6 +4,7 @@
 import DdnnfVerif.Model.Session
 import DdnnfVerif.Proofs.Paging
 import DdnnfVerif.Proofs.MarkState
+import DdnnfVerif.Proofs.ConfigPrep
 namespace Ddnnf.C16
 
 /-- a non-paging request is answered from the model and the request alone, and leaves the state unchanged -/
@@ -73,5 +74,22 @@ theorem counting_history_is_irrelevant (nodes : List NType) (n : Nat) (htopo : T
     (tmp : Nat → Nat) (reqs : List (List Int)) :
     (MS.runSt nodes n (MS.initSt nodes tmp) reqs).2 = reqs.map (execQuery nodes n) :=
   MS.history_independent nodes n htopo hne hu hpar tmp reqs
+
+/-- `enumerate` / `uniform_random_sampling` read the `temp` fields after `preprocess_config_creation` and
+`execute_query`: that state (and the count) is the same whatever earlier requests left in `temp` -/
+theorem enumeration_and_sampling_read_state_independent_of_history (nodes : List NType) (n : Nat)
+    (s₁ s₂ : MS.St) (h₁ : MS.Clean s₁) (h₂ : MS.Clean s₂) (c₁ : MS.CountsOK nodes s₁)
+    (c₂ : MS.CountsOK nodes s₂) (A : List Int) :
+    MS.prepareConfigs nodes n s₁ A = MS.prepareConfigs nodes n s₂ A :=
+  MS.prepareConfigs_state_independent nodes n s₁ s₂ h₁ h₂ c₁ c₂ A
+
+/-- the preparation of enumeration / sampling returns `execute_query`'s count and leaves a clean state
+(nothing marked, `md` empty, cached counts untouched) to the requests that follow -/
+theorem config_preparation_leaves_a_clean_state (nodes : List NType) (n : Nat) (htopo : Topo nodes)
+    (hne : nodes ≠ []) (hu : LitUnique nodes) (hpar : MS.HasParents nodes)
+    (s : MS.St) (hclean : MS.Clean s) (hcnt : MS.CountsOK nodes s) (A : List Int) (s' : MS.St) (r : Nat)
+    (h : MS.prepareConfigs nodes n s A = some (s', r)) :
+    r = execQuery nodes n A ∧ MS.Clean s' ∧ MS.CountsOK nodes s' :=
+  MS.prepareConfigs_spec nodes n htopo hne hu hpar s hclean hcnt A s' r h
 
 end Ddnnf.C16
